@@ -4,6 +4,7 @@ import Driver.Proto
 import Driver.RunH
 import Lace.Model.Cli
 import Lace.Model.CliAsm
+import Lace.Model.TermRun
 open Lace Lace.Driver Lace.Cli
 
 namespace Lace.Driver
@@ -52,18 +53,65 @@ def handleY06 (toks : List String) : String :=
     | _, _, _, _, _, _ => "bad-request"
   | _ => "bad-request"
 
+/-- Events crossterm 0.28 reports for text typed into a terminal in raw mode
+(`crossterm/src/event/sys/unix/parse.rs`, `parse_event`), character by character; escape sequences
+are not decoded (ESC is reported as a key that `Key::try_from` ignores).  This decoding is trusted,
+not verified; the harness types printable characters only.  `SHIFT` is set by crossterm for every
+upper-case character (`char::is_uppercase`), here for ASCII upper case: `Key::try_from` treats
+`NONE` and `SHIFT` alike. -/
+def eventsOfTyped (cs : List Char) : List Term.Event :=
+  cs.map fun c =>
+    let n := c.toNat
+    if n == 0x0D then .key Term.Mods.NONE .enter .press
+    else if n == 0x09 then .key Term.Mods.NONE .other .press           -- Tab
+    else if n == 0x7F then .key Term.Mods.NONE .backspace .press
+    else if n == 0x1B then .key Term.Mods.NONE .other .press           -- Esc
+    else if n == 0 then .key Term.Mods.CONTROL (.char ' ') .press
+    else if 0x01 ≤ n ∧ n ≤ 0x1A then .key Term.Mods.CONTROL (.char (Char.ofNat (n - 1 + 'a'.toNat))) .press
+    else if 0x1C ≤ n ∧ n ≤ 0x1F then .key Term.Mods.CONTROL (.char (Char.ofNat (n - 0x1C + '4'.toNat))) .press
+    else .key (if c.isUpper then Term.Mods.SHIFT else Term.Mods.NONE) (.char c) .press
+
+def showTProc : TermRun.TProc → String
+  | .finished r => "fin " ++ toString r.status ++ " " ++ charsHex r.out
+  | .panic _ => "panic"
+  | .fuel => "fuel"
+  | .blocked => "timeout"
+
 /-- `T03 mi fuel keys n words…` → `lace run t.asm` with a terminal on standard input and the text
-`keys` typed: by C03 ("GETC and IN consume exactly one input byte each") the run on the UTF-8
-bytes of the text.  The model loop is the reference loop (`C03.run_eq_ref`), so the same line
-is the specification's answer. -/
+`keys` typed.  Model line: the TERMINAL path (`TermRun.runAssembled`: GETC / IN through the model of
+`term::read_byte`, on the key events of the typed text).  Specification line: by C03 ("GETC and IN
+consume exactly one input byte each") the run of the PIPE path on the UTF-8 bytes of the text; its
+loop is the reference loop (`C03.run_eq_ref`).  `C03.terminal_run_eq_pipe_run` proves the two lines
+equal for every program and every typed text without control characters. -/
 def handleT03 (toks : List String) : String :=
   match toks with
   | mi :: fuel :: keys :: n :: ws =>
-    match parseHex mi, parseHex fuel, parseBytes keys, parseHex n, parseWords ws with
-    | some mi, some fuel, some keys, some n, some ws =>
+    match parseHex mi, parseHex fuel, parseBytes keys, parseText keys, parseHex n, parseWords ws with
+    | some mi, some fuel, some keyBytes, some keyText, some n, some ws =>
       if ws.length != n then "bad-request" else
-      let line := showProc (runAssembled false (mi != 0) fuel "t.asm".toList (some 0x3000#16) ws keys)
-      "M " ++ line ++ " ;; S " ++ line
+      let viaTerm := showTProc (TermRun.runAssembled false (mi != 0) fuel "t.asm".toList (some 0x3000#16) ws
+        (eventsOfTyped keyText))
+      let viaPipe := showProc (runAssembled false (mi != 0) fuel "t.asm".toList (some 0x3000#16) ws keyBytes)
+      "M " ++ viaTerm ++ " ;; S " ++ viaPipe
+    | _, _, _, _, _, _ => "bad-request"
+  | _ => "bad-request"
+
+/-- `K03 mi fuel keys n words…` → as `T03`, for sessions with control keys typed while the terminal
+is in raw mode.  Model line: the terminal path on the events decoded from the typed bytes.
+Specification line (`C03.terminal_process_eq_pipe_process`): the pipe path on `pipeBytes` of those
+events — present when the theorem makes the two lines literally equal: no Ctrl+C among the events
+and the terminal run is not left waiting for a key (there the pipe run ends with status 1). -/
+def handleK03 (toks : List String) : String :=
+  match toks with
+  | mi :: fuel :: keys :: n :: ws =>
+    match parseHex mi, parseHex fuel, parseText keys, parseHex n, parseWords ws with
+    | some mi, some fuel, some keyText, some n, some ws =>
+      if ws.length != n then "bad-request" else
+      let evs := eventsOfTyped keyText
+      let t := TermRun.runAssembled false (mi != 0) fuel "t.asm".toList (some 0x3000#16) ws evs
+      let viaPipe := showProc (runAssembled false (mi != 0) fuel "t.asm".toList (some 0x3000#16) ws (Term.pipeBytes evs))
+      let waiting := match t with | .blocked => true | _ => false
+      "M " ++ showTProc t ++ (if decide (Term.NoCtrlC evs) && !waiting then " ;; S " ++ viaPipe else "")
     | _, _, _, _, _ => "bad-request"
   | _ => "bad-request"
 
